@@ -78,18 +78,18 @@ def _assignment(draw, spec):
     N = len(rows)
     kind = spec["morph"]["kind"]
     edges = spec["edges"]
-    on_edges = bool(edges) and draw(st.integers(0, 3)) == 0
+    on_edges = bool(edges) and draw(st.integers(0, 2)) == 0
     if on_edges:
         t = draw(st.sampled_from(sorted({e["type"] for e in edges})))
         key = draw(st.sampled_from([k for k in RANGE if k.startswith(t + "_")]))
         ids = [i for i, e in enumerate(edges) if e["type"] == t]
-        view = draw(st.sampled_from(["type", "edge", "select_edges"]))
+        view = draw(st.sampled_from(["type", "edge", "select_edges", "select_edges"]))
         if view == "type":
             targets = ids
         elif view == "select_edges":
             # a view may hold synapses of other types too: they do not own the key and must stay untouched
             others = [i for i in range(len(edges)) if i not in ids]
-            targets = sorted(draw(st.sets(st.sampled_from(ids), min_size=1)) | (draw(st.sets(st.sampled_from(others))) if others else set()))
+            targets = sorted(draw(st.sets(st.sampled_from(ids), min_size=1)) | (draw(st.sets(st.sampled_from(others), min_size=draw(st.integers(0, 1)))) if others else set()))
         else:
             targets = sorted(draw(st.sets(st.sampled_from(ids), min_size=1)))
         a = {"on": "edges", "view": view, "key": key, "targets": targets, "type": t}
@@ -411,6 +411,15 @@ def judge(spec, tier="quick"):
         def sim(m, **kw):
             (gn.view_of(m, [0]) if N > 1 else m).stimulate(jnp.asarray([0.2] * 6), verbose=False)
             m.record("v", verbose=False)
+            # membrane and synaptic currents and synaptic states too: column 0 is the current at the *simulated*
+            # initial state, whichever route supplied it
+            if spec["hh_rows"]:
+                (gn.view_of(m, spec["hh_rows"]) if N > 1 else m).record("i_HH", verbose=False)
+            for t in sorted({e["type"] for e in spec["edges"]}):
+                ids = [i for i, e in enumerate(spec["edges"]) if e["type"] == t]
+                m.select(edges=ids).record(f"i_{t}", verbose=False)
+                if t == "IonotropicSynapse":
+                    m.select(edges=ids).record("IonotropicSynapse_s", verbose=False)
             return np.asarray(jx.integrate(m, delta_t=0.025, voltage_solver="jax.sparse", **kw), float)
 
         mC2 = route_trainable()
@@ -423,8 +432,11 @@ def judge(spec, tier="quick"):
             return out
         out.evals += 1
         out.classes.append("simulated")
-        sc = max(1.0, float(np.max(np.abs(rA))))
-        if not (np.allclose(rA, rB, rtol=0, atol=1e-9 * sc) and np.allclose(rA, rC, rtol=0, atol=1e-9 * sc)):
+        # voltages: 1e-9 of the voltage scale; current and state rows: 1e-8 of the row's own maximum
+        sc = np.full((rA.shape[0], 1), max(1.0, float(np.max(np.abs(rA[:N])))))
+        if rA.shape[0] > N:
+            sc[N:, 0] = 10.0 * np.max(np.abs(rA[N:]), axis=1) + 1e-3
+        if not (rA.shape == rB.shape == rC.shape and np.all(np.abs(rA - rB) <= 1e-9 * sc) and np.all(np.abs(rA - rC) <= 1e-9 * sc)):
             out.violate("simulate-routes", f"integrate differs between routes: set vs data_set {np.max(np.abs(rA - rB)):.3e}, set vs make_trainable {np.max(np.abs(rA - rC)):.3e}; "
                         f"assignments={[(x['view'], x['key'], x['targets']) for x in spec['assignments']]}")
     return out
